@@ -2,6 +2,7 @@
 from __future__ import annotations
 
 import ast
+from ..core import utext
 import re
 
 from ..core import (GRAPH_CLASSES, SHORT, AnalysisError, DefUse, Program,
@@ -604,7 +605,7 @@ def check_components(prog: Program, res: Result) -> None:
     fi = prog.resolve_method("MolGraph", "connected_components")
     if fi is None:
         raise AnalysisError("MolGraph.connected_components vanished")
-    txt = ast.unparse(fi.node)
+    txt = utext(fi.node)
     inst = "MolGraph.connected_components partition shape"
     loops = [n for n in ast.walk(fi.node) if isinstance(n, ast.For)]
     ok = False
